@@ -226,7 +226,9 @@ float *_book_unquantize(const static_codebook *b,int n,int *sparsemap){
          we'll have 'left over' entries; left over entries use zeroed
          values (and are wasted).  So don't generate codebooks like
          that */
-      quantvals=_book_maptype1_quantvals(b);
+      /* a zero-dimensional book has no values (the header unpack
+         makes the same exception); the search below would not end */
+      quantvals=(b->dim==0?0:_book_maptype1_quantvals(b));
       for(j=0;j<b->entries;j++){
         if((sparsemap && b->lengthlist[j]) || !sparsemap){
           float last=0.f;
